@@ -217,7 +217,7 @@ def _gen(rng, kind, tier):
                      "seed": int(rng.integers(1 << 30))}
         elif t < 0.8:
             levels = (-3.0, 5.0)
-            image = {"type": "other", "truth": _truth(rng, spec, cls), "levels": [-3.0, 5.0],
+            image = {"type": "other", "truth": _truth(rng, spec, cls), "levels": list(levels),
                      "noise": 0.0, "seed": 0}
         else:
             image = {"type": "other", "truth": truth, "levels": [0.0, 1.0], "noise": 0.05,
@@ -355,7 +355,9 @@ def run(case, rec):
         from droplets.image_analysis import refine_droplets
 
         def refine_in_workers():
-            out = refine_droplets(field, [cand], num_processes=2, **opts)
+            # (candidates may be any iterable: a list or a one-shot generator)
+            cands = [cand] if len(case["cand"]["pos"]) % 2 else (c for c in [cand])
+            out = refine_droplets(field, cands, num_processes=2, **opts)
             if len(out) != 1:
                 raise RuntimeError(f"refine_droplets returned {len(out)} droplets for one candidate")
             return out[0]
